@@ -54,13 +54,27 @@ func newInitEnv(in *inst, text string, disableMemo bool) (*initEnv, error) {
 // newInitEnvSize: as newInitEnv, with the Size(size) option when size ≥ 0 and
 // the DisableMemoize() option (rather than the field) when disableMemo.
 func newInitEnvSize(in *inst, text string, disableMemo bool, size int) (*initEnv, error) {
-	it := newInstInterp(in)
+	return initOn(in, nil, nil, text, disableMemo, size)
+}
+
+// initOn runs Init on a fresh parser, or — when prev is given — once more on
+// the parser of an earlier Init (a second Init on a long-lived instance).
+func initOn(in *inst, prevIt *Interp, prev *Obj, text string, disableMemo bool, size int) (*initEnv, error) {
+	it := prevIt
+	if it == nil {
+		it = newInstInterp(in)
+	}
 	fd, parserT := findInit(it)
 	if fd == nil {
 		return nil, fmt.Errorf("Init not found")
 	}
-	it.globalInit(instFiles(in), "rul3s")
-	p := it.newObj(parserT)
+	if prev == nil {
+		it.globalInit(instFiles(in), "rul3s")
+	}
+	p := prev
+	if p == nil {
+		p = it.newObj(parserT)
+	}
 	p.field("Buffer").v = text
 	if c := p.field("disableMemoize"); c != nil {
 		c.v = disableMemo
@@ -358,6 +372,24 @@ func (ie *initEnv) publishedTokens() string {
 	return "[" + strings.Join(toks, " ") + "]"
 }
 
+// astOf calls AST() on the parser's published tokens and renders the result.
+func (ie *initEnv) astOf() string {
+	tc := ie.p.field("tokens")
+	if tc == nil {
+		return ""
+	}
+	fd := ie.it.declOf("tokens.AST")
+	if fd == nil {
+		return ""
+	}
+	ie.it.steps = 0
+	res := ie.it.callDecl(fd, tc.v)
+	if len(res) != 1 {
+		return ""
+	}
+	return renderNode(res[0], map[*Obj]bool{}, 0)
+}
+
 // setRule installs a scripted entry rule.
 func (ie *initEnv) setRule(idx int, branches [][]step, verdict bool) {
 	rules, _ := ie.p.field("rules").v.(*SliceV)
@@ -440,7 +472,7 @@ func rtReuseSemantics(a *aggregator, v *rtView, rule, construct string) {
 		}
 		if ast {
 			if r.verdict {
-				out += " tokens=" + ie.publishedTokens()
+				out += " tokens=" + ie.publishedTokens() + " AST=" + ie.astOf()
 			}
 		}
 		return afterReset, out + " | " + ie.state()
@@ -509,8 +541,28 @@ func rtReuseSemantics(a *aggregator, v *rtView, rule, construct string) {
 					}
 					def = "returns an error for " + ft + " of its own parser"
 				}
-				if !strings.HasPrefix(wantParse, def+" | ") {
+				plain := wantParse
+				if i := strings.Index(plain, " AST="); i >= 0 {
+					if j := strings.Index(plain[i:], " | "); j >= 0 {
+						plain = plain[:i] + plain[i+j:]
+					}
+				}
+				if !strings.HasPrefix(plain, def+" | ") {
 					bad = append(bad, fmt.Sprintf("a fresh parser on %q whose entry rule %s: Parse %s; by definition it %s", r.text, map[bool]string{true: "matches", false: "fails"}[r.verdict], wantParse, def))
+				}
+			}
+			// a second Init on the used instance instead of Reset
+			{
+				again, err := newInitEnvSize(v.in, sq[0].text, false, size)
+				if err == nil {
+					do(again, sq[0], true)
+					re, err2 := initOn(v.in, again.it, again.p, sq[1].text, false, -1)
+					if err2 == nil {
+						_, gotAgain := do(re, sq[1], true)
+						if gotAgain != wantParse {
+							bad = append(bad, fmt.Sprintf("after parsing %q (and building its tree), a second Init and Parse of %q: %s; a fresh parser: %s", sq[0].text, sq[1].text, gotAgain, wantParse))
+						}
+					}
 				}
 			}
 			if gotReset != wantReset {
